@@ -92,7 +92,7 @@ public:
   virtual size_t getSize() = 0;
 
   /** Saves the hash to a file */
-  void save(std::ostream &fp);
+  virtual void save(std::ostream &fp);
 
   /** Loads a hash from a file*/
   static Hash *load(std::istream &fp, int r);
